@@ -97,6 +97,9 @@ func runC01(c *Ctx, r *Report) {
 	c05FreshInstance(c, r, "C01-g/fresh-instance")
 	// (h) a readable input is read: the opener fails only for the open itself or the rewind
 	borrow(c, r, c06OpenFailures, "C06-b/open-failures", "C01-h/open-failures", nil, true)
+	c06GzipProbe(c, r, "C01-h/gzip-probe")
+	// (i) lines waiting in a batch are not overwritten by the scanner (the C04-a discipline)
+	c04Buffers(c, r, "C01-i")
 }
 
 // atomicAddTarget: atomic.AddUint64(&x.f, 1) -> field name.
